@@ -43,9 +43,22 @@ def label_handle(handle: asyncio.Handle) -> tuple[str, Any]:
         return ("deliver", owner)
     if qual == "CancelScope._timeout":
         return ("timeout", owner)
+    args = handle._args  # type: ignore[attr-defined]
     if qual.endswith("task_done"):
-        args = handle._args  # type: ignore[attr-defined]
         return ("taskdone", args[0] if args else None)
+    # structural fallbacks, so that renaming those private callbacks does not change the labelling:
+    # a bound method of an AnyIO cancel scope is its deadline timer when scheduled with call_at and
+    # its delivery callback when scheduled with call_soon; a plain function of the asyncio backend
+    # module called with a finished task is that task's done-callback
+    try:
+        from anyio._backends._asyncio import CancelScope as _CS
+    except Exception:  # noqa: BLE001
+        _CS = ()  # type: ignore[assignment]
+    if _CS and isinstance(owner, _CS):
+        return ("timeout" if isinstance(handle, asyncio.TimerHandle) else "deliver", owner)
+    if (owner is None and args and isinstance(args[0], asyncio.Task) and args[0].done()
+            and getattr(cb, "__module__", "") == "anyio._backends._asyncio"):
+        return ("taskdone", args[0])
     return ("other", qual or repr(cb))
 
 
